@@ -701,7 +701,7 @@ def handler (fn : String) : Option Handler :=
         | some (x, y) => diffOracle x y o
         | none => "skip bad-args" }
   | "clip_line" => some {
-      model := fun a => run (do let b ← paabb3; let o ← pv3; let d ← pv3; pure (fclipLine (clipAabbLine b o d))) a
+      model := fun a => run (do let b ← paabb3; let o ← pv3; let d ← pv3; pure (fclipLine (clipAabbLineC b o d))) a
       oracle := fun a o => match run (do let b ← paabb3; let p ← pv3; let d ← pv3; pure (b, p, d)) a with
         | some (b, p, d) => clipLineOracle b p d o
         | none => "skip bad-args" }
